@@ -88,11 +88,11 @@ func (ln *listener) Accept() (net.Conn, error) {
 
 // Close implements Listener.
 func (ln *listener) Close() error {
-	if ln.fd != 0 {
-		syscall.Close(ln.fd)
-	}
 	if ln.file != nil {
+		// ln.fd is the descriptor of ln.file: close it once, through the file that owns it
 		ln.file.Close()
+	} else if ln.fd != 0 {
+		syscall.Close(ln.fd)
 	}
 	if ln.ln != nil {
 		ln.ln.Close()
